@@ -140,18 +140,22 @@ func (t *XMPPTransport) Write(p []byte) (n int, err error) {
 }
 
 func (t *XMPPTransport) Close() error {
+	// This call is about the connection that exists now. The wait below can last ConnectTimeout seconds, and a
+	// reconnection may install a new connection in the meantime (the keepalive of a lost session closes the
+	// transport while the application is already resuming): that one must not be closed in its place.
+	conn, closeChan := t.conn, t.closeChan
 	if t.readWriter != nil {
 		_, _ = t.readWriter.Write([]byte(stanza.StreamClose))
 	}
 
 	// Try to wait for the stream close tag from the server. After a timeout, disconnect anyway.
 	select {
-	case <-t.closeChan:
+	case <-closeChan:
 	case <-time.After(time.Duration(t.Config.ConnectTimeout) * time.Second):
 	}
 
-	if t.conn != nil {
-		return t.conn.Close()
+	if conn != nil {
+		return conn.Close()
 	}
 	return nil
 }
